@@ -308,6 +308,8 @@ class FeArray(np.ndarray):
         # with optimize= reaches for np.multiply internally, which would otherwise come back
         # through __array_ufunc__ and be aligned a second time
         feShape = _FeShape(args) or _FeShape(kwargs.values())
+        # the field may be given by keyword: np.sum(a=field, axis=-1)
+        ndim = _FeNdim(args) or _FeNdim(kwargs.values())
         # numpy calls a dispatched reduction on the stripped array, so the method wrapper never
         # sees it and the axis has to be read here instead
         if func is np.trace:
@@ -316,10 +318,10 @@ class FeArray(np.ndarray):
                 kwargs.get("axis1", args[2] if len(args) > 2 else 0),
                 kwargs.get("axis2", args[3] if len(args) > 3 else 1),
             )
-            if not _KeepsFeAxes(axes, np.ndim(args[0])):
+            if not _KeepsFeAxes(axes, ndim):
                 feShape = ()
-        elif func in _AXIS_MOVERS:
-            if not _KeepsLeadingAxes(func, args, kwargs, _FeNdim(args)):
+        elif func in _AXIS_MOVERS and args:
+            if not _KeepsLeadingAxes(func, args, kwargs, ndim):
                 feShape = ()
         else:
             # where the axis is among the positional arguments: np.linalg.norm(x, ord, axis),
@@ -338,7 +340,7 @@ class FeArray(np.ndarray):
                     # (cumsum, flip, ...) is typed by the shape that comes out
                     if func in _REDUCERS:
                         feShape = ()
-                elif not _KeepsFeAxes(axis, _FeNdim(args) or np.ndim(args[0])):
+                elif not _KeepsFeAxes(axis, ndim):
                     feShape = ()
         args = tuple(_Base(arg) for arg in args)
         kwargs = {key: _Base(value) for key, value in kwargs.items()}
